@@ -485,6 +485,8 @@ def rule_d(ctx):
     from . import c01 as _c01
 
     _c01.rule_f(ctx)
+    ctx.rule("C01.b", "Image.num_voxels is read off the array at the time of the call (see C01.b)")
+    _c01.rule_num_voxels(ctx, "C01.b")
     ctx.floor(R, 1)
 
 
